@@ -386,3 +386,87 @@ Section ConvBounds.
     lra.
   Qed.
 End ConvBounds.
+
+(* ------------------------------------------------------------------ the kernel of set_filter_radius *)
+Lemma tab3_shape3 {A} nx ny nz (F : Z -> Z -> Z -> A) : 1 <= nx -> 1 <= ny -> 1 <= nz ->
+  shape3 (tab3 nx ny nz F) = (nx, ny, nz).
+Proof.
+  intros Hx Hy Hz. unfold shape3, tab3. rewrite !hd_nth0.
+  change 0%nat with (Z.to_nat 0).
+  rewrite map_zrange_length. rewrite nth_map_zrange by lia. rewrite map_zrange_length.
+  rewrite nth_map_zrange by lia. rewrite map_zrange_length.
+  f_equal; [f_equal|]; lia.
+Qed.
+
+Lemma map3_tab3 {K} (h : K -> K) nx ny nz (F : Z -> Z -> Z -> K) :
+  map3 h (tab3 nx ny nz F) = tab3 nx ny nz (fun i j k => h (F i j k)).
+Proof.
+  unfold map3, tab3. rewrite map_map. apply map_ext. intros i. rewrite map_map. apply map_ext. intros j.
+  rewrite map_map. reflexivity.
+Qed.
+
+Lemma sum3_tab3 {K} `{Num K} nx ny nz (F : Z -> Z -> Z -> K) : sum3 (tab3 nx ny nz F) = zsum3 nx ny nz F.
+Proof.
+  unfold sum3, tab3, zsum3, zsum. rewrite map_map. f_equal. apply map_ext. intros i. rewrite map_map. reflexivity.
+Qed.
+
+Section RadiusKernel.
+  Open Scope R_scope.
+  Variables dlx dly dlz sx sy sz : Z.
+  Variable wtab : Z -> R.
+  Hypothesis Hx : (0 <= dlx)%Z.
+  Hypothesis Hy : (0 <= dly)%Z.
+  Hypothesis Hz : (0 <= dlz)%Z.
+  Hypothesis Hw : forall k, 0 <= wtab k.         (* max(0, .) *)
+  Hypothesis Hc : 0 < wtab 0.                    (* the centre weight is the radius, r > 0 *)
+
+  Let F (a b c : Z) : R :=
+    wtab (((a - dlx) * sx) * ((a - dlx) * sx) + ((b - dly) * sy) * ((b - dly) * sy)
+          + ((c - dlz) * sz) * ((c - dlz) * sz))%Z.
+  Let S := zsum3 (2 * dlx + 1) (2 * dly + 1) (2 * dlz + 1) F.
+  Let w := radius_kernel dlx dly dlz sx sy sz wtab.
+
+  Lemma radius_kernel_eq : w = tab3 (2 * dlx + 1) (2 * dly + 1) (2 * dlz + 1) (fun a b c => F a b c / S).
+  Proof.
+    unfold w, radius_kernel, normalise3, cone_raw. cbv zeta. rewrite sum3_tab3. fold F. fold S.
+    rewrite map3_tab3. reflexivity.
+  Qed.
+
+  Lemma radius_S_pos : 0 < S.
+  Proof.
+    assert (Hc' : 0 < F dlx dly dlz).
+    { unfold F. replace ((dlx - dlx) * sx * ((dlx - dlx) * sx) + (dly - dly) * sy * ((dly - dly) * sy)
+                         + (dlz - dlz) * sz * ((dlz - dlz) * sz))%Z with 0%Z by ring. exact Hc. }
+    pose proof (zsum3R_le (2 * dlx + 1) (2 * dly + 1) (2 * dlz + 1)
+                  (fun i j k => if (i =? dlx)%Z && (j =? dly)%Z && (k =? dlz)%Z then F i j k else @nzero R NumR) F) as L.
+    rewrite (zsum3_single num_ring_R (2 * dlx + 1) (2 * dly + 1) (2 * dlz + 1) dlx dly dlz F) in L by lia.
+    fold S in L. apply Rlt_le_trans with (1 := Hc'). apply L.
+    intros a b c _ _ _. destruct ((a =? dlx)%Z && (b =? dly)%Z && (c =? dlz)%Z); [apply Rle_refl | apply Hw].
+  Qed.
+
+  Theorem radius_kernel_normalised :
+    shape3 w = (2 * dlx + 1, 2 * dly + 1, 2 * dlz + 1)%Z /\
+    (forall qa qb qc, (0 <= qa < 2 * dlx + 1)%Z -> (0 <= qb < 2 * dly + 1)%Z -> (0 <= qc < 2 * dlz + 1)%Z ->
+       0 <= wget w qa qb qc) /\
+    zsum3 (2 * dlx + 1) (2 * dly + 1) (2 * dlz + 1) (wget w) = 1.
+  Proof.
+    pose proof radius_S_pos as HS. rewrite radius_kernel_eq. split; [|split].
+    - apply tab3_shape3; lia.
+    - intros qa qb qc Ha Hb Hcc. unfold wget. rewrite tab3_nth3 by assumption.
+      apply Rmult_le_pos; [apply Hw | left; apply Rinv_0_lt_compat; exact HS].
+    - rewrite (zsum3_ext _ _ _ _ (fun a b c => / S * F a b c)).
+      + rewrite zsum3R_scale. fold S. field. lra.
+      + intros a b c Ha Hb Hcc. unfold wget. rewrite tab3_nth3 by assumption. unfold Rdiv. apply Rmult_comm.
+  Qed.
+
+  (* the cone kernel is invariant under the mirror of every axis *)
+  Theorem radius_kernel_mirror qa qb qc :
+    (0 <= qa < 2 * dlx + 1)%Z -> (0 <= qb < 2 * dly + 1)%Z -> (0 <= qc < 2 * dlz + 1)%Z ->
+    wget w (2 * dlx - qa) qb qc = wget w qa qb qc /\
+    wget w qa (2 * dly - qb) qc = wget w qa qb qc /\
+    wget w qa qb (2 * dlz - qc) = wget w qa qb qc.
+  Proof.
+    intros Ha Hb Hcc. rewrite radius_kernel_eq. unfold wget. rewrite !tab3_nth3 by lia.
+    unfold F. repeat split; f_equal; f_equal; ring.
+  Qed.
+End RadiusKernel.
